@@ -42,7 +42,7 @@ type C11Case struct {
 	Twin   bool     `json:"twin,omitempty"`
 }
 
-var profileC11 = []kindW{{"mocksend", 4}, {"nftsend", 8}, {"mtsend", 6}, {"flow", 6}, {"round", 10}, {"rules", 5}, {"update", 1},
+var profileC11 = []kindW{{"mocksend", 4}, {"nftsend", 8}, {"mtsend", 6}, {"flow", 6}, {"round", 10}, {"rules", 5}, {"rulesdiscard", 2}, {"restart", 1}, {"update", 1},
 	{"nftmint", 1}, {"mtmint", 1}, {"replay", 1}, {"ack", 1}, {"recv", 1}}
 
 var profileC11Twin = []kindW{{"nftsend", 8}, {"mtsend", 6}, {"mocksend", 2}, {"nftmint", 2}, {"mtmint", 2}, {"nftxfer", 2}, {"mtxfer", 1}}
